@@ -20,6 +20,7 @@ import edif_canon as ec
 import edif_gen as eg
 import edif_mech as em
 import edif_file as ef
+import edif_emit as ee
 
 CORPUS_DIR = os.path.join(common.CORPUS, 'edif')
 LOCAL_FINDINGS = os.path.join(CORPUS_DIR, 'known_findings_edif.json')
@@ -124,6 +125,7 @@ def explain_diff(lines, feats):
     return None
 
 
+@ee.rt_consistency
 def c03_case(netlist, spec_feats=None, second_round=True, limit=CALL_LIMIT):
     """The C03 oracle on one netlist. Returns (result, info): result is None (property holds) or a
     dict {kind, detail, signature}."""
@@ -156,6 +158,10 @@ def c03_case(netlist, spec_feats=None, second_round=True, limit=CALL_LIMIT):
             bad = written_vs_netlist(summ, netlist)
             if bad:
                 return _res('written-file-differs-from-netlist', bad[:6], 'unexplained'), info
+        # (1b) what was written against the whole-file WRITER MODEL (Fmt/EdifEmit.emit_file, extracted)
+        bad = ee.check_written(netlist, doc, info)
+        if bad:
+            return _res('writer-model-differs-from-composer', bad[:6], 'unexplained'), info
         # (2) the file must be accepted by the reader
         try:
             with ec.time_limit(limit):
@@ -855,6 +861,7 @@ def run(prop, tier, seed, replay):
                            'what': 'EdifFile.elab_text (extracted) and sdn.parse on the same text: raised <-> err, both returned -> canonical structures equal; '
                                    'everything returned by the reader is checked for well-formedness'
                                    + ('' if prop == 'C05' else ' (C03: the texts written by the real composer for every second generated netlist)')},
+        'writer_model_tie': ee.summary(),
         'model_impl_disagreements': n_disagree,
         'bundled_files': bundled_done,
         'known_findings_hit': dict(known_hits),
